@@ -454,6 +454,8 @@ def e2e_engine(pid, spec, tier, seed, workdir, res):
                    VERIF_BACKEND=r.get('backend', ''))
         if r.get('twins'):
             env['VERIF_TWINS'] = '1'
+        if r.get('faults'):
+            env['VERIF_FAULTS'] = '1'
         res['distribution']['backend:' + r.get('backend', 'mem')] = res['distribution'].get('backend:' + r.get('backend', 'mem'), 0) + n
         rc, log = run_harness(r.get('test', 'TestE2E'), env, out)
         if rc != 0 or not os.path.exists(os.path.join(out, 'impl.txt')):
